@@ -134,6 +134,13 @@ func run(c *vh.Ctx) error {
 		}
 	}
 
+	// ---- the import path rejects blocks with late errors
+	if w := processRejectsLateErrors(); w != "" {
+		rp := vh.WriteReplay(c.ReplayDir, "C17", "process-late-error", c.Seed, []string{"oracle: " + w}, []string{"PROCESS-LATE"})
+		res.Fail("oracle", "", w, rp)
+	}
+	res.Dist("process-rejects-late-error-blocks")
+
 	// ---- part 1: authenticity
 	if err := runSenderPart(c, drv); err != nil {
 		return err
@@ -173,7 +180,11 @@ func run(c *vh.Ctx) error {
 			if f.matcher != "" {
 				hdr = append(hdr, "matcher: "+f.matcher)
 			}
-			rp := vh.WriteReplay(c.ReplayDir, "C17", fmt.Sprintf("block-%d-%s", bi, strings.ReplaceAll(key, "|", "-")), c.Seed, hdr, small)
+			name := fmt.Sprintf("block-%d-%s", bi, f.kind)
+			if f.matcher != "" {
+				name = "known-" + f.matcher // stable name: one file per known finding, overwritten by every run
+			}
+			rp := vh.WriteReplay(c.ReplayDir, "C17", name, c.Seed, hdr, small)
 			res.Fail(f.kind, f.matcher, f.what, rp)
 		}
 	}
@@ -192,6 +203,10 @@ func replayWith(drv *vh.Driver, body, comments []string) (bool, string) {
 	if body[0] == "CONST" {
 		d := checkConsts(drv)
 		return d != "", d
+	}
+	if body[0] == "PROCESS-LATE" {
+		w := processRejectsLateErrors()
+		return w != "", w
 	}
 	if strings.HasPrefix(body[0], "S ") || strings.HasPrefix(body[0], "P ") {
 		fails := false
